@@ -26,7 +26,10 @@ cd $V/coq
 if [ ! -f Makefile ] || [ _CoqProject -nt Makefile ]; then
   coq_makefile -f _CoqProject -o Makefile > /dev/null 2>&1 || fail coq_makefile
 fi
-timeout 3000 make -j16 > $B/logs/coq.log 2>&1 || { tail -30 $B/logs/coq.log; fail coq; }
+# -k: a proof or generated-fact file that no longer checks must not hide the others; each check re-compiles its own
+# property file and reports exactly the obligation that broke.  The model itself (needed for extraction) must build.
+timeout 3000 make -k -j16 > $B/logs/coq.log 2>&1 || echo "COQ-PARTIAL: some files did not compile (see build/logs/coq.log)"
+for f in Model/Driver.vo Spec/WriteDoc.vo; do [ -f $V/coq/$f ] || { tail -30 $B/logs/coq.log; fail coq-model; }; done
 
 # 3. extraction + OCaml driver (re-extracted whenever a model file was recompiled)
 if [ ! -x $B/ml/modelrun ] || [ $V/coq/Extract/modelrun.ml -nt $B/ml/modelrun ] || [ $V/coq/Extract/Extract.v -nt $B/ml/modelrun ] \
